@@ -741,3 +741,60 @@ func TestBoundedC06(t *testing.T) {
 		}
 	}
 }
+
+// ---- C16: introspection calls against an independent walk of the file
+
+func TestReplayC16(t *testing.T) {
+	rs := recs(17, 16)
+	for name, codec := range codecs {
+		for _, ps := range []int{1, 2, 3, 5, 100} {
+			for _, batches := range [][]int{{17}, {9, 8}, {4, 6, 7}} {
+				file := writeFile(t, rs, ps, batches, codec)
+				fail := func(f string, a ...interface{}) {
+					t.Errorf("REPLAY-FAIL C16 codec=%s page=%d batches=%v: %s", name, ps, batches, fmt.Sprintf(f, a...))
+				}
+				footer, err := parquet.ReadMetaData(bytes.NewReader(file))
+				if err != nil {
+					fail("ReadMetaData: %v", err)
+					continue
+				}
+				// independent walk: page after page from each chunk's offset to its end
+				var want []sch.PageHeader
+				walkOK := true
+				for _, rg := range footer.RowGroups {
+					for _, col := range rg.Columns {
+						off := col.MetaData.DataPageOffset
+						end := off + col.MetaData.TotalCompressedSize
+						var chunk []sch.PageHeader
+						for off < end && off < int64(len(file)) {
+							cr := &countReader{r: bytes.NewReader(file[off:])}
+							ph, err := parquet.PageHeader(cr)
+							if err != nil {
+								walkOK = false
+								break
+							}
+							chunk = append(chunk, *ph)
+							off += int64(cr.n) + int64(ph.CompressedPageSize)
+						}
+						want = append(want, chunk...)
+						got, err := parquet.PageHeadersAtOffset(bytes.NewReader(file), col.MetaData.DataPageOffset, col.MetaData.NumValues)
+						if err != nil {
+							fail("PageHeadersAtOffset(%d, %d) column %v: %v (the chunk holds %d pages)", col.MetaData.DataPageOffset, col.MetaData.NumValues, col.MetaData.PathInSchema, err, len(chunk))
+						} else if !reflect.DeepEqual(got, chunk) {
+							fail("PageHeadersAtOffset(%d, %d) column %v: %d headers reported, %d pages in the chunk, or their contents differ", col.MetaData.DataPageOffset, col.MetaData.NumValues, col.MetaData.PathInSchema, len(got), len(chunk))
+						}
+					}
+				}
+				if !walkOK {
+					continue // the file itself is not walkable: not an introspection failure
+				}
+				got, err := parquet.PageHeaders(footer, bytes.NewReader(file))
+				if err != nil {
+					fail("PageHeaders: %v (an independent walk finds %d pages)", err, len(want))
+				} else if !reflect.DeepEqual(got, want) {
+					fail("PageHeaders reports %d headers, an independent walk finds %d pages, or their contents differ", len(got), len(want))
+				}
+			}
+		}
+	}
+}
